@@ -498,6 +498,41 @@ func GenC11(rng *rand.Rand, thorough bool, emit func(*Sx)) {
 		}
 	}
 
+	// every parameter of a command at once (seven for MAIL, three for RCPT), in several orders
+	allMail := []string{"SIZE=10", "BODY=8BITMIME", "SMTPUTF8", "REQUIRETLS", "RET=FULL", "ENVID=QQ314159", "AUTH=<>"}
+	allRcpt := []string{"NOTIFY=SUCCESS,FAILURE", "ORCPT=rfc822;o@p", "RRVS=2014-04-03T23:01:00Z"}
+	for rot := 0; rot < 7; rot++ {
+		var ps []string
+		for i := range allMail {
+			ps = append(ps, allMail[(i+rot)%7])
+		}
+		emit(RunC11(c11AllOn(), "MAIL", "FROM:<a@b> "+strings.Join(ps, " ")))
+		emit(RunC11(c11AllOn(), "MAIL", "FROM:<a@b> "+strings.Join(ps[:6], " ")))
+		if rot < 3 {
+			var rs []string
+			for i := range allRcpt {
+				rs = append(rs, allRcpt[(i+rot)%3])
+			}
+			emit(RunC11(c11AllOn(), "RCPT", "TO:<c@d> "+strings.Join(rs, " ")))
+		}
+	}
+	// local parts and domains at and around the RFC 5321 size limits (64 / 255 octets), valid either way
+	for _, n := range []int{1, 63, 64, 65, 128} {
+		lp := strings.Repeat("l", n)
+		for _, verb := range verbs {
+			emit(RunC11(c11AllOn(), verb, prefix[verb]+"<"+lp+"@d.example>"))
+			emit(RunC11(c11AllOn(), verb, prefix[verb]+"<\""+lp+"\"@d.example>"))
+		}
+	}
+	for _, n := range []int{63, 64, 250, 255, 256} {
+		dom := strings.Repeat("d", n%64+1)
+		for len(dom) < n-8 {
+			dom += "." + strings.Repeat("e", 7)
+		}
+		for _, verb := range verbs {
+			emit(RunC11(c11AllOn(), verb, prefix[verb]+"<u@"+dom+">"))
+		}
+	}
 	// the RFC 5321 special case "<Postmaster>" (RCPT only) and its neighbours, for both verbs
 	for _, verb := range verbs {
 		for _, pm := range []string{"<postmaster>", "<Postmaster>", "<POSTMASTER>", "<postmaster@d.example>", "<postmaster@>", "<webmaster>", "<postmasterx>",
